@@ -178,9 +178,14 @@ func (m *Manager) handlePotentialData(ctx context.Context, bz []byte, daHeight u
 	dataHashStr := signedData.Data.DACommitment().String()
 	m.dataCache.SetDAIncluded(dataHashStr, daHeight)
 	m.sendNonBlockingSignalToDAIncluderCh()
-	m.logger.Info("signed data marked as DA included, dataHash: ", dataHashStr, "daHeight: ", daHeight, "height: ", signedData.Height())
+	// Metadata is optional on the wire; a blob without it must not crash the retriever.
+	var dataHeight uint64
+	if signedData.Metadata != nil {
+		dataHeight = signedData.Height()
+	}
+	m.logger.Info("signed data marked as DA included, dataHash: ", dataHashStr, "daHeight: ", daHeight, "height: ", dataHeight)
 	// entries without a height were written by earlier versions (persisted cache)
-	if !m.dataCache.IsSeen(dataHashStr) && !m.dataCache.IsSeen(dataSeenKey(dataHashStr, signedData.Height())) {
+	if !m.dataCache.IsSeen(dataHashStr) && !m.dataCache.IsSeen(dataSeenKey(dataHashStr, dataHeight)) {
 		select {
 		case <-ctx.Done():
 			return
